@@ -87,6 +87,8 @@ class SourceTree:
             for n in ast.walk(mod):
                 for c in ast.iter_child_nodes(n):
                     c._parent = n
+                if isinstance(n, (ast.FunctionDef, ast.ClassDef)):
+                    n._mod = mod          # the module whose global scope the definition sees
             self._ast[rel] = mod
         return self._ast[rel]
 
